@@ -210,7 +210,29 @@ func c16Once(p *C16Plan, data []byte, cut int, res *RunResult) *Violation {
 			bound = int64(declared)
 		}
 		if declared >= 0 && alloc > 2*bound+65536 {
-			return mk("allocation", "allocation", fmt.Sprintf("reading frame %d (declared length %d) allocated %d bytes", i, declared, alloc))
+			// TotalAlloc is process-wide (runtime, test framework): confirm by reading the same frame again, three
+			// times, from a fresh reader positioned at its first byte; only a repeatable excess counts
+			least := alloc
+			for rep := 0; rep < 3; rep++ {
+				fr2 := &faultyReader{data: data, off: pos, sizes: p.ReadSizes, cut: cut}
+				br2 := bufio.NewReaderSize(fr2, 4096)
+				var a0, a1 runtime.MemStats
+				runtime.GC()
+				runtime.ReadMemStats(&a0)
+				func() {
+					defer func() { _ = recover() }()
+					if f2, e2 := http2.ReadFrameFromWithSize(br2, p.Max); e2 == nil {
+						http2.ReleaseFrameHeader(f2)
+					}
+				}()
+				runtime.ReadMemStats(&a1)
+				if d := int64(a1.TotalAlloc - a0.TotalAlloc); d < least {
+					least = d
+				}
+			}
+			if least > 2*bound+65536 {
+				return mk("allocation", "allocation", fmt.Sprintf("reading frame %d (declared length %d) allocated %d bytes (least of 4 measurements)", i, declared, least))
+			}
 		}
 		if err != nil {
 			if want != nil && want.Err == "" && !errors.Is(err, http2.ErrUnknownFrameType) && (p.Max == 0 || want.Len <= int(p.Max)) && want.Type <= 9 {
